@@ -173,6 +173,11 @@ impl Cache {
     fn random_shard_id(&self) -> usize {
         use rand::Rng;
 
+        #[cfg(kismet_verif)]
+        if let Some(draw) = crate::verif_hooks::draw_shard() {
+            return (draw % self.num_shards as u64) as usize;
+        }
+
         rand::thread_rng().gen_range(0..self.num_shards)
     }
 
